@@ -6,10 +6,11 @@ Case line (one kernel + its launch arguments), tokens separated by one space:
   k<id> args:<ints|-> garr:<sizes> ob:<odims>:<idims>:<kinds>:<shared>:<nexc>:<nloc>:<attrs>
         sec:<written shared|->:<flags> <stmt> <stmt> ... sec:... ob:...
 
-  odims/idims  comma list of  c<int> (literal extent) | a<n> (scalar argument p<n>)
+  odims/idims  comma list (1 to 3 nested loops, outer-most first) of  c<int> (literal extent) | a<n> (scalar argument p<n>)
   kinds        per global array: i (read only) | t<st> (thread-owned cells) | b<st> (block-owned) | a (@atomic +=) | n
   shared       - | comma list <stride>x<size>
-  attrs        - | '+'-joined: m<a>x<b> (@max_inner_dims(a,b) on the outer-most @outer loop), s<n> (@simd_length(n)),
+  attrs        - | '+'-joined: m<a>[x<b>[x<c>]] (@max_inner_dims(a,b,c) on the outer-most @outer loop; a belongs to the
+               inner-most @inner loop), s<n> (@simd_length(n)),
                r (@restrict on the pointer arguments; only looked at on the first outer block)
   sec flags    N | B (explicit @barrier(); before this inner loop) | n (@nobarrier on this inner loop), joined
   stmt         L<x>=<e>  X<x>=<e>  O<a>.<d>=<e>  B<a>.<d>=<e>  S<s>.<d>=<e>  A<a>[<e>]+=<e>  A<a>[<e>]++  A<a>[<e>]--
@@ -221,7 +222,7 @@ def parse_case(line):
     for ob in K["obs"]:
         if not ob["secs"]:
             raise Bad("no section")
-        if not (1 <= len(ob["odims"]) <= 2 and 1 <= len(ob["idims"]) <= 2):
+        if not (1 <= len(ob["odims"]) <= 3 and 1 <= len(ob["idims"]) <= 3):
             raise Bad("nest depth")
         if len(ob["kinds"]) != len(K["garr"]):
             raise Bad("kinds length")
@@ -301,9 +302,17 @@ class Emit:
     def __init__(self, K, ob):
         self.K, self.ob = K, ob
         od, idm = ob["odims"], ob["idims"]
-        self.lo = "o0" if len(od) == 1 else "(o0 * %s + o1)" % bound_text(od[1])
-        self.li = "i0" if len(idm) == 1 else "(i0 * %s + i1)" % bound_text(idm[1])
-        self.mi = bound_text(idm[0]) if len(idm) == 1 else "(%s * %s)" % (bound_text(idm[0]), bound_text(idm[1]))
+        self.lo = self.linear("o", od)
+        self.li = self.linear("i", idm)
+        self.mi = bound_text(idm[0]) if len(idm) == 1 else "(%s)" % " * ".join(bound_text(b) for b in idm)
+
+    @staticmethod
+    def linear(v, dims):
+        """row-major linear index text of the loop variables v0, v1, ... over the extents dims"""
+        t = v + "0"
+        for k in range(1, len(dims)):
+            t = "(%s * %s + %s%d)" % (t, bound_text(dims[k]), v, k)
+        return t
 
     def gstride(self, a):
         k, st = self.ob["kinds"][a]
